@@ -290,6 +290,9 @@ def w_power(ctx, rng, idx):
     ctx.describe({'op': 'evp.power_method', 'dims': dims, 'complex': cplx, 'gevp': gevp, 'sigma': sigma, 'target': float(w[k])})
     tags = (['complex'] if cplx else []) + (['gevp'] if gevp else [])
     kw = {'operator_gevp': B} if B is not None else {}
+    # a few iterations only (far from convergence): the reported value must be the Rayleigh quotient of the returned tensor all the same
+    call('evp.power_method', evp.power_method, A, g, prop=P, tags=tags + ['few_iterations'], refusals=(np.linalg.LinAlgError,), repeats=int(rng.integers(1, 4)),
+         sigma=float(rng.uniform(w[0], w[-1])) if rng.random() < 0.5 else sigma, **kw)
     ok, r = call('evp.power_method', evp.power_method, A, g, prop=P, tags=tags, refusals=(np.linalg.LinAlgError,), repeats=14, sigma=sigma, **kw)
     if not ok:
         ctx.skip('power_method_singular_shifted_system')
